@@ -8,7 +8,7 @@ if ! git -C /repo diff --quiet; then echo "/repo has uncommitted changes; refusi
 for ID in $IDS; do
   D=seeded/$ID
   CHECKS=$(python3 -c "import json;print(' '.join(json.load(open('$D/meta.json'))['checks_run']))")
-  git -C /repo apply $D/patch.diff || { echo "$ID patch does not apply"; continue; }
+  git -C /repo apply /verif/$D/patch.diff || { echo "$ID patch does not apply"; continue; }
   : > $D/detect.tmp
   for P in $CHECKS; do
     OUT=$(./check $P --tier quick 2>&1); RC=$?
